@@ -44,8 +44,15 @@ def check(run, model, tier):
                  any(signal_const(x) == 'STOP_ACTIVE_OBJECT_SIGNAL' for x in ast.walk(c)))
     join = nodes(lambda c: isinstance(c.func, ast.Attribute) and c.func.attr == 'join' and dotted(c.func.value) == selfn + '.thread')
     cancel = nodes(lambda c: isinstance(c.func, ast.Attribute) and c.func.attr in ('cancel_events', 'cancel_event') and dotted(c.func.value) == selfn)
-    for what, lst in (('run-flag clear', clear), ('wake-up post', wake), ('join', join), ('cancel-all call', cancel)):
+    for what, lst in (('run-flag clear', clear), ('join', join), ('cancel-all call', cancel)):
         run.floor('stop(): %s sites' % what, len(lst), 1)
+    if not wake:
+        run.inst('ORDER.stop', stop, 'wake-up posted before the join', False,
+                 'stop() posts no wake-up item to the object\'s queue: the thread is blocked waiting for a token and join() never returns', obligation=True)
+        return
+    if not clear:
+        run.inst('ORDER.stop', stop, 'run flag cleared before the join', False, 'stop() does not clear the object\'s run flag: the thread never leaves its loop', obligation=True)
+        return
     c0, w0, j0, x0 = clear[0], wake[0], join[0], cancel[0]
     ok = g.dominates(c0, w0)
     run.inst('ORDER.stop', stop, 'run flag cleared before the wake-up item is posted', ok,
